@@ -11,7 +11,7 @@
 From Coq Require Import List NArith ZArith Bool.
 From NV Require Import Syntax.Token Syntax.Ast Syntax.StmtAst Syntax.Parser Syntax.Grammar
      Syntax.ParserProofs Syntax.GrammarProofs Syntax.OpTableCheck Syntax.LexTable Syntax.FuelProofs
-     Syntax.SoundProofs Syntax.SoundSeq Syntax.TypeGrammar Syntax.TypeProofs Syntax.StmtGrammar Syntax.StmtProofs Syntax.Lexer Syntax.LexNumber Syntax.LexIdent Gen.OpTable.
+     Syntax.SoundProofs Syntax.SoundSeq Syntax.TypeGrammar Syntax.TypeProofs Syntax.TypeSound Syntax.StmtGrammar Syntax.StmtProofs Syntax.StmtSound Syntax.SoundFull Syntax.Lexer Syntax.LexNumber Syntax.LexIdent Gen.OpTable.
 Import ListNotations.
 
 (* Every well-formed derivation tree, of any size and nesting depth, is read back as exactly
@@ -192,15 +192,43 @@ Theorem C10_sound_seq : forall ts ss,
 Proof. exact parse_sound_seq. Qed.
 Print Assumptions C10_sound_seq.
 
-(* String interpolation is part of all the theorems above: `SInterp` trees are in `sx` (C10_roundtrip,
-   C10_sound_core, C10_characterised), the lexer model carries the tokenizer's scope stack.
-   NOT PROVED (partial): soundness for token lists with newlines (skipped inside argument lists,
-   conditionals and literals), trailing commas, and for the definition forms (fn, unit, dimension, struct,
-   use, annotated / decorated let), for which only the direction C10_roundtrip_def is proved.
-   There the correspondence check and the reference recogniser decide. *)
-Definition C10_full : Prop :=
-  forall ts ss, parse ts = Ok ss [] ->
-  exists stmts, Forall (fun s => wf_stmt s = true) stmts /\ map desugar_stmt stmts = ss.
+(* Soundness of the type parser: whatever Parser::type_annotation / dimension_expression accept is
+   the print of a well-formed type tree and denotes it (with C10_roundtrip_type / _dexpr: acceptance
+   of type annotations is characterised exactly, on all token lists). *)
+Theorem C10_sound_type : forall ts a rest, type_annotation ts = Ok a rest ->
+  exists t, wf_ty t = true /\ ty_ann t = a /\ ts = pr_ty t ++ rest.
+Proof. exact type_annotation_sound. Qed.
+Print Assumptions C10_sound_type.
+
+Theorem C10_sound_dexpr : forall ts e rest, dimension_expression ts = Ok e rest ->
+  exists t, wf_ty t = true /\ 1 <= ylvl t /\ ty_exp t = e /\ ts = pr_ty t ++ rest.
+Proof. exact dimension_expression_sound. Qed.
+Print Assumptions C10_sound_dexpr.
+
+(* Soundness for every statement form, and the theorem that stands for `C10_full`: on token lists
+   without line-break tokens and trailing commas (`core`), and without the two degenerate
+   type-parameter spellings `fn f<>(…)` / `struct S<> {…}` and `<A,>` (`tp_plain`; the parser accepts
+   them, the grammar of StmtGrammar.v has no spelling for them), whatever `parse` accepts is the
+   `;`-separated one-line print of well-formed statements and definitions (expressions incl.
+   interpolated strings, let, procedure calls, fn, dimension, unit, use, struct, decorators) and the
+   result is the list of their meanings: nothing outside the documented grammar is accepted or
+   reinterpreted.  REMAINING GAP of the full statement (all token lists): line-break tokens (inside
+   brackets, after `=`, before where / and, after decorators, blank lines), trailing commas, and the
+   two spellings above; for those only the completeness direction (C10_roundtrip_program for line
+   breaks between statements and after decorators) and the correspondence check apply. *)
+Theorem C10_sound_statement : forall ts st rest, core ts = true -> tp_plain ts = true ->
+  statement ts = Ok st rest ->
+  exists it, wf_item it = true /\ desugar_item it = st /\ ts = pr_item_flat it ++ rest.
+Proof. exact statement_sound_full. Qed.
+Print Assumptions C10_sound_statement.
+
+Theorem C10_full_partial : forall ts ss,
+  core ts = true -> tp_plain ts = true -> parse ts = Ok ss [] ->
+  ts = [] /\ ss = [] \/
+  exists items trailing, items <> [] /\ Forall (fun i => wf_item i = true) items
+    /\ ts = pr_program_semi items trailing /\ ss = map desugar_item items.
+Proof. exact parse_sound_full. Qed.
+Print Assumptions C10_full_partial.
 
 (* ---- non-vacuity *)
 Definition id_ (c : N) : sx := SIdent [c].
@@ -364,4 +392,18 @@ Example C10_ex_interpolation :
   /\ parse [TInterpStart [34; 123]; TIdent [120]]%N = Err UnterminatedStringParse
   /\ tokenize st co [34; 123; 120; 123; 125; 125; 34]%N = LErr UnexpectedCurlyInInterpolation
   /\ tokenize st co [34; 123; 120; 32; 34; 98; 34; 125; 34]%N = LErr UnterminatedStringInterpolation.
+Proof. vm_compute. repeat split; reflexivity. Qed.
+
+(* soundness hypotheses are satisfiable and exclude what they should: a one-line program with a
+   decorated fn and a struct is core / tp_plain, parses, and is the print of its items *)
+Example C10_ex_sound_full :
+  let f := SFFn [SDName [34; 78; 34]%N] [102]%N [([68]%N, true)] [([120]%N, Some (YIdent [68]%N None))]
+                None (Some (id_ 120, [])) in
+  let s := SFStruct [83]%N [] [([97]%N, YList YBool)] in
+  let ts := pr_program_semi [IDef f; IDef s; IStmt (SSExpr (id_ 120))] true in
+  core ts = true /\ tp_plain ts = true
+  /\ parse ts = Ok [desugar_def f; desugar_def s; StExpr (EIdent [120]%N)] []
+  /\ tp_plain [TKw KFn; TIdent [102]; TLessThan; TGreaterThan; TLParen; TRParen]%N = false
+  /\ tp_plain [TKw KFn; TIdent [102]; TLessThan; TIdent [65]; TComma; TGreaterThan]%N = false
+  /\ core [TIdent [102]; TLParen; TNewline; TRParen]%N = false.
 Proof. vm_compute. repeat split; reflexivity. Qed.
